@@ -21,6 +21,8 @@ def gen(args):
         Xi = P.centred_lattice(rng, n, m, 4)
         p = int(rng.integers(1, 3))
         Yi = P.centred_lattice(rng, n, p, 4)
+        if rng.random() < 0.15:
+            Yi[:, 0] = Xi[:, int(rng.integers(m))]          # a target that is exactly one of the features
         X, Y = Xi / 4.0, Yi / 4.0
         kmax = min(n, m)
         k = int(rng.integers(1, kmax + 1))
